@@ -22,7 +22,10 @@ def _alarm(signum, frame):
 def hostile_datagrams(rng, pair, n):
     """(kind, bytes, source address) - the stream of C06 plus protocol-level oddities."""
     out = []
-    hist = [d for (_, _, d) in pair.history]
+    # authentic datagrams to mutate: not the IKE_SA_INIT responses - before keys exist a forged IKE_SA_INIT response
+    # legitimately derails that very exchange (RFC 7296 section 2.4; nothing an implementation can prevent), and this
+    # oracle checks that the legitimate session completes
+    hist = [d for (_, _, d) in pair.history if not (d[18] == 34 and d[19] & 0x20)]
     known = [bytes(s.my_spi) for ep in (pair.A, pair.B) for s in ep.controller.ike_sas]
     for _ in range(n):
         k = rng.randrange(14)
@@ -161,16 +164,34 @@ def hostile_session(ctx, seed, legit, per_step, sendto_fail=None, kfail=None, re
                 record.append(rec)
         if not fails and sendto_fail is None and kfail is None:
             # the legitimate session must have completed exactly as without the hostile input
-            a_ok = [int(s.state) for s in p.A.controller.ike_sas if s.peer_crypto is not None and int(s.state) == 10]
-            b_ok = [int(s.state) for s in p.B.controller.ike_sas if s.peer_crypto is not None and int(s.state) == 10]
-            if not a_ok or not b_ok or not p.A.kernel.sad or sorted(p.A.kernel.sad) != sorted(p.B.kernel.sad):
+            got = outcome(p)
+            want = clean_outcome(legit)
+            if got != want:
                 fails.append(Failure('property', 'loop:legitimate-session-disturbed',
-                                     f'after the hostile input the legitimate session did not complete: A states '
-                                     f'{[int(s.state) for s in p.A.controller.ike_sas][:6]}, B states '
-                                     f'{[int(s.state) for s in p.B.controller.ike_sas][:6]}, SADs equal: '
-                                     f'{sorted(p.A.kernel.sad) == sorted(p.B.kernel.sad)}',
+                                     f'after the hostile input the legitimate session ended as {got} (established '
+                                     f'IKE_SAs of A and B, kernel SAs of A and B, SADs mirror each other); without the '
+                                     f'hostile input it ends as {want}',
                                      {'seed': seed, 'legit': legit, 'per_step': per_step}))
     return fails
+
+
+def outcome(p):
+    return (sum(1 for s in p.A.controller.ike_sas if s.peer_crypto is not None and int(s.state) == 10),
+            sum(1 for s in p.B.controller.ike_sas if s.peer_crypto is not None and int(s.state) == 10),
+            len(p.A.kernel.sad), len(p.B.kernel.sad), sorted(p.A.kernel.sad) == sorted(p.B.kernel.sad))
+
+
+_clean = {}
+
+
+def clean_outcome(legit):
+    key = repr(legit)
+    if key not in _clean:
+        with Pair(seed=12345) as q:
+            q.run([list(a) for a in legit])
+            q.drain()
+            _clean[key] = outcome(q)
+    return _clean[key]
 
 
 LEGIT = ['handshake', 'new_child', 'rekey_child', 'rekey_ike', 'delete_child']
